@@ -14,6 +14,7 @@ signatures it is the sum of; `VerifyAggregatedOne` holds iff that list is a perm
 Core Lean only (the driver links this file natively).
 -/
 import YouVerif.C01.GenConsts
+import YouVerif.C01.GenFacts
 namespace YouVerif.C01
 
 abbrev U32 : Nat := 4294967296
@@ -189,7 +190,10 @@ structure Checks where
   blsIdentity : Bool       -- identity aggregate / empty key list is a mismatch, not a panic (F-C01d)
   deriving Repr
 
-def Checks.current : Checks := ⟨true, true, true, true⟩
+/-- the checks present in the source NOW: regenerated from /repo's current text by the shape-fact translator
+(GenFacts.lean), so a check that disappears from the Go code disappears from the model and from the driver too -/
+def Checks.current : Checks :=
+  ⟨Gen.srcThresholdsFromParams, Gen.srcVoterEntitled, Gen.srcProposerEntitled, Gen.srcBlsIdentity⟩
 
 inductive Why where
   | consDecode | consSig | thresholds | priority | ucDecode | notEnough
